@@ -21,7 +21,7 @@ def main():
     checks = sys.argv[5:]
     rnd = int(os.environ.get("SEED_ROUND", "1"))
     src = "/tmp/seed/out%s/%s/%s" % ("" if rnd == 1 else str(rnd), prop, n)
-    wt = "/tmp/seed/%s%s" % (prop, ["", "b", "c", "d", "e"][rnd - 1])
+    wt = "/tmp/seed/%s%s" % (prop, ["", "b", "c", "d", "e", "f", "g", "h"][rnd - 1])
     fid = str(int(n) + 2 * (rnd - 1))
     rc, out = sh("python3 %s/tools/confirm_seed.py %s %s %s" % (V, wt, src, crate))
     try:
